@@ -38,8 +38,10 @@ Theorem print_derives_current_tables : forall e, wf 0 e -> D 0 (print T_gen 0 e)
 Proof. intros e H. apply PrintProofs.print_derives_top; [exact js_prec_tables_ok | exact H]. Qed.
 Print Assumptions print_derives_current_tables.
 
-Theorem strip_print_stable : forall T e p, print T p (strip T p e) = print T p e.
+Theorem strip_print_stable : forall T, consts_exact T = true -> forall e p, print T p (strip T p e) = print T p e.
 Proof. exact PrintProofs.strip_print_stable. Qed.
+Example consts_exact_current_tables : consts_exact T_gen = true.
+Proof. vm_compute. reflexivity. Qed.
 Print Assumptions strip_print_stable.
 
 Theorem short_circuit_assoc : forall (V : Type) (truthy : V -> bool) a b c,
@@ -51,7 +53,7 @@ Print Assumptions short_circuit_assoc.
 (* the hypothesis on the tables is what protects against the K11 defect: with the logical assignment operators missing from
    the maps (as on the pinned tree) the right operand of ??= is printed at level 0 and a comma operand loses its parentheses *)
 Example print_refuted_without_table_entries :
-  let T_old := {| t_unary := t_unary T_gen; t_unop := t_unop T_gen;
+  let T_old := {| t_unary := t_unary T_gen; t_unop := t_unop T_gen; t_const := t_const T_gen;
                   t_left := filter (fun kv => negb (String.eqb (fst kv) "NullishEqToken")) (t_left T_gen);
                   t_right := filter (fun kv => negb (String.eqb (fst kv) "NullishEqToken")) (t_right T_gen);
                   t_binop := filter (fun kv => negb (String.eqb (fst kv) "NullishEqToken")) (t_binop T_gen) |} in
